@@ -92,7 +92,12 @@ type Address struct {
 // string.
 func NewAddress(addr string) (Address, error) {
 	var decoded []byte
-	hrp, data, err := bech32.DecodeNoLimit(addr)
+	hrp, data, version, err := bech32.DecodeNoLimitWithVersion(addr)
+	if err == nil && version != bech32.Version0 {
+		// Cardano addresses use the original bech32 checksum (BIP-173),
+		// never the bech32m constant
+		err = errors.New("invalid bech32 checksum (bech32m is not valid for addresses)")
+	}
 	isBech32 := err == nil
 	if err == nil {
 		decoded, err = bech32.ConvertBits(data, 5, 8, false)
